@@ -111,7 +111,7 @@ V = [
     # ---------------------------------------------------------------- ESC / MEASURE / PAIR / DISPATCH
     ("esccall-swap-args", ["C01", "C03"], "ESCCALL", "ProductState.apply_operation", [(S + "composite_envelope.py", "ProductState.apply_operation", "einsum = ESC.apply_operator_matrix(self.state_objs, list(states))", "einsum = ESC.apply_operator_matrix(list(states), self.state_objs)")]),
     ("esccall-operator-storage-shape", ["C01", "C03"], "ESCCALL", "ProductState.apply_operation", [(S + "composite_envelope.py", "ProductState.apply_operation", "            operator = operation.operator.reshape([s.dimensions for s in states] * 2)\n\n            # Generate the Einstein sum string\n", "            operator = operation.operator.reshape([s.dimensions for s in self.state_objs] * 2)\n\n            # Generate the Einstein sum string\n")]),
-    ("esccall-no-reorder", ["C02"], "ESCCALL", "CompositeEnvelope.trace_out", [(S + "composite_envelope.py", "CompositeEnvelope.trace_out", "        self.reorder(*states)\n\n        return ps.trace_out(*states)", "        return ps.trace_out(*states)")]),
+    ("esccall-no-reorder", ["C02"], "ESCCALL", "CompositeEnvelope.trace_out", [(S + "composite_envelope.py", "CompositeEnvelope.trace_out", "        self.reorder(*states)\n\n        # Reordering combines", "        # Reordering combines")]),
     ("escgen-dict-position", ["C01", "C03", "C06"], "ESCGEN", "apply_operator_vector", [("photon_weave/extra/einsum_constructor.py", "einsum_constructor:apply_operator_vector", "            einsum_list_list[2].append(einsum_dict[s][1])\n        else:\n            einsum_list_list[2].append(einsum_dict[s][0])", "            einsum_list_list[2].append(einsum_dict[s][0])\n        else:\n            einsum_list_list[2].append(einsum_dict[s][0])")]),
     ("escgen-storage-order", ["C01", "C03", "C06", "C09"], "ESCGEN", "apply_operator_matrix", [("photon_weave/extra/einsum_constructor.py", "einsum_constructor:apply_operator_matrix", "    for s in operator_objs:\n        einsum_list_list[0].append(einsum_dict[s][0])", "    for s in state_objs:\n        if s in operator_objs:\n            einsum_list_list[0].append(einsum_dict[s][0])")]),
     ("escgen-conj-side", ["C01", "C03", "C06", "C09"], "ESCGEN", "apply_operator_matrix", [("photon_weave/extra/einsum_constructor.py", "einsum_constructor:apply_operator_matrix", "    for s in operator_objs:\n        einsum_list_list[2].append(einsum_dict[s][1])", "    for s in operator_objs:\n        einsum_list_list[2].append(einsum_dict[s][0])")]),
